@@ -98,5 +98,36 @@ def r3(ctx):
         ctx.guard(d, s, 'valid', lambda f: f.kind == 'bool' and f.pol and tstr(f.term).startswith('is_valid_nts'), key='deserialize|Ok|is_valid_nts')
 
 
-RULES = [r1, r2, r3]
-FLOORS = {'C24-R1': 29, 'C24-R2': 30, 'C24-R3': 4}
+def r4(ctx):
+    ctx.rule('C24-R4', 'segment order agreement: the decoder reads header at 0, extension fields from header_size, the MAC from the bytes remaining after the extension fields; '
+             'NtpPacket::serialize writes to the one writer in the same order: header, then efdata, then MAC (no path from a later segment\'s write to an earlier segment\'s write)')
+    P = ctx.P
+    b = P.body(PK + '::NtpPacket::serialize')
+    hdr = b.calls(r'NtpHeaderV(5|3V4)::serialize$')
+    efs = b.calls(r'ExtensionFieldData::serialize$')
+    mac = b.calls(r'Mac::serialize$')
+    ctx.check('serialize|segments', len(hdr) == 3 and len(efs) == 2 and len(mac) == 1, 'header writes %d, extension-field writes %d, MAC writes %d' % (len(hdr), len(efs), len(mac)),
+              sample=[len(hdr), len(efs), len(mac)])
+    for c in hdr + efs + mac:
+        w = N(b.call_args(c)[1])
+        ctx.check('serialize|%s|same-writer' % site_desc(b, c), w == 'w', 'written to %s' % w, c.where(), sample=w)
+    for e in efs:
+        ctx.check('serialize|%s|after-header' % site_desc(b, e), blocks_must_pass_block(b, e.bb, [h.bb for h in hdr]) and not any(b.can_reach(e.bb, h.bb) for h in hdr),
+                  'extension fields are not written strictly after the header', e.where(), sample=True)
+    for m in mac:
+        ctx.check('serialize|%s|after-header' % site_desc(b, m), blocks_must_pass_block(b, m.bb, [h.bb for h in hdr]) and not any(b.can_reach(m.bb, h.bb) for h in hdr),
+                  'the MAC is not written strictly after the header', m.where(), sample=True)
+        back = [site_desc(b, e) for e in efs if b.can_reach(m.bb, e.bb)]
+        ctx.check('serialize|%s|after-extension-fields' % site_desc(b, m), not back, 'extension fields can be written after the MAC (%s): the decoder expects the MAC last' % back, m.where(), sample=len(back))
+        ctx.guard(b, m, 'mac-present', fact_is(r'^self\.mac$', ['Some']), key='serialize|%s|only-when-present' % site_desc(b, m))
+    d = P.body(PK + '::NtpPacket::deserialize')
+    md = d.calls(r'Mac::deserialize$')
+    ed = d.calls(r'ExtensionFieldData::deserialize$')
+    ctx.check('deserialize|segments', len(ed) == 2 and all(N(d.call_args(c)[1]) == 'header_size' for c in ed), 'extension-field parser calls %s' % [[N(a) for a in d.call_args(c)] for c in ed], sample=len(ed))
+    cl = [x for x in P.closures_of(d) if x.calls(r'Mac::deserialize$')]
+    args = [N(x.call_args(c)[0]) for x in cl for c in x.calls(r'Mac::deserialize$')] + [N(d.call_args(c)[0]) for c in md]
+    ctx.check('deserialize|mac-from-remaining', sorted(args) == sorted(['remaining_bytes', 'remaining_bytes', 'index::index(data, RangeFrom{start: header_size})']), 'MAC parsed from %s' % args, sample=args)
+
+
+RULES = [r1, r2, r3, r4]
+FLOORS = {'C24-R1': 29, 'C24-R2': 30, 'C24-R3': 4, 'C24-R4': 12}
